@@ -11,7 +11,7 @@ def scenario_cases(seed, tier):
     """(name, case, preexisting {relative final name: bytes}) - {plain, gzip, xz} x {single, rotations, onto existing, destroy +- buffered}"""
     out = []
     idx = 0
-    shapes = ['single', 'rot3', 'onto_existing', 'onto_current', 'destroy_buffered', 'destroy_clean']
+    shapes = ['single', 'rot3', 'onto_existing', 'onto_current', 'empty_rotation', 'destroy_buffered', 'destroy_clean']
     nvar = 1 if tier == 'quick' else 4
     for var in range(nvar):
         for comp in ('none', 'gzip', 'xz'):
@@ -41,6 +41,9 @@ def scenario_cases(seed, tier):
                 elif shape == 'onto_current':
                     # rotation onto the very name that is being written (e.g. time-stamped names within one second)
                     ops += [{'op': 'rotate', 'id': 'o0', 'export': True}] + recs(nrec + 3) + [{'op': 'rotate', 'id': 'o0', 'export': True}] + recs(2) + [{'op': 'wb'}]
+                elif shape == 'empty_rotation':
+                    # an output that is opened and closed again without receiving a block (e.g. timed rotation, no traffic)
+                    ops += [{'op': 'rotate', 'id': 'o1', 'export': True}, {'op': 'rotate', 'id': 'o2', 'export': False}] + recs(3) + [{'op': 'rotate', 'id': 'o3', 'export': True}]
                 elif shape == 'destroy_buffered':
                     ops += [{'op': 'wb'}] + recs(2)
                 elif shape == 'destroy_clean':
